@@ -58,6 +58,8 @@ def stimuli_of(labels):
             out.append(('remove', int(args[0])))
         elif name == 'Reply':
             out.append(('reply', int(args[0])))
+        elif name == 'SrvLoss':
+            out.append(('srvloss',))
         elif name == 'SearchRm':
             out.append(('searchrm',))
         elif name == 'SearchHeld':
@@ -148,6 +150,7 @@ class Run:
         self.sheld: list[dict] = []     # searches whose sent event is being delivered to such a listener
         self.cmds: dict[int, object] = {}   # entity -> the command object that created it
         self.lst = '' if cfg.get('lst', '-') == '-' else str(cfg.get('lst'))
+        self.server_down = False        # rig F: the server connection is gone, nothing can be sent
 
     # -- recording ---------------------------------------------------------
     def now_ms(self) -> int:
@@ -365,12 +368,17 @@ class Run:
             sent.extend(messages)
             return []
         client.network.send_server_messages = send_server_messages
-        # what login() would have done, without a network
-        client.session = Session(user=User(name='me'), ip_address='1.2.3.4', greeting='', client_version=157,
-                                 minor_version=100)
         self.client = client
+        self._login_light()
         self._listen(client.events)
         self.server_conn = _Conn()
+
+    def _login_light(self):
+        # what login() would have done, without a network
+        from aioslsk.session import Session
+        from aioslsk.user.model import User
+        self.client.session = Session(user=User(name='me'), ip_address='1.2.3.4', greeting='', client_version=157,
+                                      minor_version=100)
 
     async def _setup_full(self):
         from .. import simnet, simserver
@@ -435,6 +443,11 @@ class Run:
             await self.quiesce()
             self.scan()
             self.poll_errors()
+        if self.server_down and kind in NEEDS_SERVER:
+            if self.cfg['rig'] == 'F':
+                return                   # (no automatic reconnect in these runs)
+            self._login_light()          # rig L: the application reconnects and logs in again first
+            self.server_down = False
         fn = getattr(self, '_op_' + kind)
         self.cur_op = kind
         try:
@@ -459,6 +472,26 @@ class Run:
                 await s.search_user(self.rng.choice(['user0', 'someone else']), self._query())
         except Exception as exc:   # observation
             self.log('opexc', what=f'{api}:{type(exc).__name__}')
+
+    async def _op_srvloss(self):
+        """The server connection is lost (rig F: the server closes it; rig L: the state changes
+        of the client's ServerConnection are announced on the bus, as the network does)."""
+        if self.server_down:
+            return
+        if self.cfg['rig'] == 'F':
+            self.server_down = True
+            self.server.sessions[-1].close('eof' if self.rng.random() < 0.7 else 'reset')
+            await self.quiesce()
+            return
+        from aioslsk.events import ConnectionStateChangedEvent
+        from aioslsk.network.connection import CloseReason, ConnectionState
+        self.server_down = True
+        conn = self.client.network.server_connection
+        for state in (ConnectionState.CLOSING, ConnectionState.CLOSED):
+            try:
+                await self.client.events.emit(ConnectionStateChangedEvent(conn, state, CloseReason.EOF))
+            except Exception as exc:
+                self.log('opexc', what=f'srvloss:{type(exc).__name__}')
 
     async def _op_searchrm(self):
         self.sent_remove = True
@@ -686,6 +719,9 @@ REQ_ACTIONS = ['Search', 'CmdSearch', 'WlMsg', 'Remove', 'Reply', 'Yield', 'Adva
                'RunDue', 'RunCallback', 'RunUnset', 'RunWishlist', 'RunWlDue']
 HELD_ACTIONS = ['Search', 'Remove', 'ReplyHeld', 'ReplyRelease', 'RunReplyArrive', 'RunReplyResume', 'Yield',
                 'Advance', 'RunFirst', 'RunCancelled', 'RunDue', 'RunCallback', 'RunUnset']
+NEEDS_SERVER = ('search', 'cmd', 'wlmsg', 'searchrm', 'sheld', 'recmd')
+LOSS_ACTIONS = ['Search', 'Remove', 'WlMsg', 'SrvLoss', 'Yield', 'Advance', 'RunFirst', 'RunCancelled', 'RunDue',
+                'RunCallback', 'RunUnset', 'RunWishlist', 'RunWlDue', 'RunWlDead']
 LST_ACTIONS = ['Search', 'Remove', 'WlMsg', 'Yield', 'Advance', 'RunFirst', 'RunCancelled', 'RunDue', 'RunCallback',
                'RunEmitResume', 'RunUnset', 'RunWishlist', 'RunWlDue']
 LST_CODES = ['s', 'a', 'u', 'us', 'su', 'ua', 'au', 'uu', 'sa']
@@ -839,6 +875,8 @@ def random_request_scenario(rng, rig):
                 held += 1
             elif held:
                 st.append(('rrelease', rng.randrange(1, held + 1)))
+        elif r < 0.78:
+            st.append(('srvloss',))
         elif r < 0.85:
             st.append(('yield',))
         elif ticks < 7:
@@ -1072,13 +1110,14 @@ def run(chk: Check, args):
     deviations = (('MC_req_code_remove.cfg', 'NoLoopError'), ('MC_req_code_gen.cfg', 'DistinctTickets'),
                   ('MC_timer_code.cfg', 'SupersededNeverFires'), ('MC_req_code_reply.cfg', 'ResultIffLive'),
                   ('MC_req_code_start.cfg', 'NoLoopError'), ('MC_req_code_recmd.cfg', 'DistinctTickets'),
-                  ('MC_req_code_selfcancel.cfg', 'AllTold'))
+                  ('MC_req_code_selfcancel.cfg', 'AllTold'), ('MC_req_code_loss.cfg', 'NoOverdue'))
     with ThreadPoolExecutor(max_workers=4) as pool:
         f_req = pool.submit(dump_cover, 'MC_req_tiny.cfg')
         f_tm = pool.submit(dump_cover, 'MC_timer_tiny.cfg')
         f_held = pool.submit(dump_cover, 'MC_req_held_tiny.cfg')
         f_sent = pool.submit(dump_cover, 'MC_req_sent_tiny.cfg')
         f_lst = pool.submit(dump_cover, 'MC_req_lst_tiny.cfg')
+        f_loss = pool.submit(dump_cover, 'MC_req_loss_tiny.cfg')
         f_dev = [pool.submit(tlc.run_tlc, SPEC, cfg, workers=2, timeout=900) for cfg, _ in deviations]
         scheds_req = cover_schedules(chk, 'MC_req_tiny.cfg', 'SearchRequests requests tiny (exhaustive)',
                                      REQ_ACTIONS, f_req.result())
@@ -1093,6 +1132,9 @@ def run(chk: Check, args):
         # the application's listeners of SearchRequestRemovedEvent: one that suspends, then a plain one
         scheds_lst = cover_schedules(chk, 'MC_req_lst_tiny.cfg', 'SearchRequests removed-event listeners tiny (exhaustive)',
                                      LST_ACTIONS, f_lst.result())
+        # the server connection is lost while requests are pending: their timeouts stay in force
+        scheds_loss = cover_schedules(chk, 'MC_req_loss_tiny.cfg', 'SearchRequests server loss tiny (exhaustive)',
+                                      LOSS_ACTIONS, f_loss.result())
         # the code's position of each switch must break the property it is about
         for (cfg, prop), fut in zip(deviations, f_dev):
             r = fut.result()
@@ -1128,11 +1170,12 @@ def run(chk: Check, args):
             chk.rng.shuffle(keys)
             keys = sorted(keys[:cap])
         return keys
-    req_keys = pick(scheds_req, None if thorough else 1100)
+    req_keys = pick(scheds_req, None if thorough else 1000)
     tm_keys = pick(scheds_tm, None if thorough else 1000)
     held_keys = pick(scheds_held, None if thorough else 600)
     sent_keys = pick(scheds_sent, None if thorough else 550)
     lst_keys = pick(scheds_lst, None if thorough else 350)
+    loss_keys = pick(scheds_loss, None if thorough else 300)
     full_cover = thorough
 
     # ---- replay on the real code ----------------------------------------------------------
@@ -1168,6 +1211,9 @@ def run(chk: Check, args):
         # the model's pair (suspending, plain) slot-exactly; other listener sets on the same schedules
         plan.append((dict(rig='L' if n % 6 else 'F', rt=rt, wt=wt, items=1, conc=conc + n,
                           lst='us' if n % 2 == 0 else LST_CODES[(n // 2) % len(LST_CODES)]), st, scheds_lst[key]))
+    for n, key in enumerate(loss_keys):
+        rt, wt, st = key
+        plan.append((dict(rig='L' if n % 3 else 'F', rt=rt, wt=wt, items=1, conc=conc + n), st, scheds_loss[key]))
     # the other request histories: every third one with some listeners of the removed event
     for n, (cfg, st, src) in enumerate(plan):
         if cfg['rig'] in 'LF' and 'lst' not in cfg and not src.startswith('sim:') and n % 3 == 0:
